@@ -1,8 +1,9 @@
 #!/bin/bash
-# usage: tools/seed_eval.sh <PROP> <worktree> [seed-name] [checks...]
-# 1. confirms the agent's demo fails with the change and passes without it, and that the stable baseline tests pass with the change
+# usage: tools/seed_eval.sh <PROP> <worktree-with-change-applied> <seed-name> [checks...]
+# 1. confirms the agent's demo fails with the change and passes without it, and that the test suite passes with the change
 # 2. stores patch + demo under /verif/seeded/<name>/
-# 3. applies the patch to /repo, runs the given checks (default: the property's quick check), reverts /repo
+# 3. runs the given checks (default: the property's quick check) against the worktree (EMD_VERIF_REPO), with evidence and
+#    replays redirected to a scratch directory - /repo and /verif/evidence are not touched
 P=$1; WT=$2; NAME=${3:-$P}; shift 3 2>/dev/null
 CHECKS=${@:-$P}
 set -u
@@ -15,21 +16,18 @@ git apply -R /tmp/seed-$NAME.diff
 PYTHONPATH=$WT /venv/bin/python $DEMO > /tmp/seed-$NAME.without.log 2>&1; RC_WITHOUT=$?
 git apply /tmp/seed-$NAME.diff
 echo "demo: with change rc=$RC_WITH, without rc=$RC_WITHOUT"
-PYTHONPATH=$WT /venv/bin/python -m pytest -q -p no:cacheprovider --timeout=900 emd/tests 2>&1 | tail -2 > /tmp/seed-$NAME.tests.log
-cat /tmp/seed-$NAME.tests.log
+PYTHONPATH=$WT /venv/bin/python -m pytest -q -p no:cacheprovider --timeout=900 emd/tests 2>&1 | tail -1
 mkdir -p /verif/seeded/$NAME
 cp /tmp/seed-$NAME.diff /verif/seeded/$NAME/patch.diff
 cp $DEMO /verif/seeded/$NAME/
-cd /repo
-git diff --quiet || { echo "/repo dirty, abort"; exit 2; }
-git apply /verif/seeded/$NAME/patch.diff 2>/dev/null || git apply --3way /verif/seeded/$NAME/patch.diff || { echo "patch does not apply to /repo HEAD"; exit 2; }
+SCR=$(mktemp -d /tmp/seed-run-XXXX)
 cd /verif
 RES=""
 for c in $CHECKS; do
-  ./vcheck $c quick > /tmp/seed-$NAME.$c.log 2>&1; rc=$?
-  echo "check $c rc=$rc: $(grep -E '^(VIOLATION|HARNESS|OK|KNOWN)' /tmp/seed-$NAME.$c.log | head -2 | tr '\n' ' ')"
-  grep -A1 -E '^VIOLATION' /tmp/seed-$NAME.$c.log | head -4
+  EMD_VERIF_REPO=$WT VERIF_EVIDENCE_DIR=$SCR/evidence VERIF_REPLAY_DIR=$SCR/replays ./vcheck $c quick > /tmp/seed-$NAME.$c.log 2>&1; rc=$?
+  echo "check $c rc=$rc: $(grep -E '^(VIOLATION|HARNESS|OK|KNOWN)' /tmp/seed-$NAME.$c.log | head -2 | cut -c1-250 | tr '\n' ' ')"
+  grep -A1 -E '^VIOLATION' /tmp/seed-$NAME.$c.log | grep -v '^VIOLATION' | head -2
   RES="$RES $c:$rc"
 done
-git -C /repo reset -q; git -C /repo checkout -- .
+rm -rf $SCR
 echo "RESULT $NAME demo_with=$RC_WITH demo_without=$RC_WITHOUT checks:$RES"
